@@ -271,7 +271,9 @@ def specval(v, st=None, ex=None):
         from .values import ObjV
         if isinstance(o, ObjV):
             return NS({f: specval(x, st, ex) for f, x in o.fields.items()})
-        from .values import DictV, SymDict
+        from .values import DictV, SymDict, SymAtts
+        if isinstance(o, SymAtts):
+            return o.t
         if isinstance(o, SymDict):
             return NS(dict(present=o.present, val=o.val, nonempty=o.nonempty))
         if isinstance(o, DictV):
